@@ -106,6 +106,31 @@ def check_order(sess):
         oblige_at(ex, q, tag, 'ensures', (r.z() == lex_ge((a, b, c), (x, y, z))) if isinstance(r, VBool) else False,
                   'result==((a,b,c)>=lex(x,y,z))')
     sess.absorb(ctx, replay=replay15('order'))
+    # a reply that does not carry the "Firmware Version " label (silence, foreign text, a bare number) never yields a verdict: None
+    ctx = sess.new_ctx()
+    sm.install_common(ctx)
+    ctx.ext_funcs['packaging.version.parse'] = parse_model
+    nolabel = Atom(z3.String('reply_without_label'), origin=('legacy_reply',))
+
+    class UnlabelledReply:
+        def apply(self, ex, p, args, kwargs, node):
+            p.events.append(('write', S('V\r', 'bytes')))
+            yield p, VStr([nolabel])
+    ctx.contracts[f'{LEG}.query'] = UnlabelledReply()
+    ctx.inline.add(f'{LEG}.queryVersion')
+    ex = Exec(ctx)
+    p = Path()
+    p.assume(z3.Not(z3.Contains(nolabel.term, z3.StringVal(MARK))))
+    n_paths = 0
+    for q, out in ex.run_function(p, LEG, 'min_version', [sm.PORT, thr]):
+        tag = 'ebb_serial.min_version[reply-without-the-version-label]'
+        if not no_raise(ex, q, out, tag):
+            continue
+        n_paths += 1
+        oblige_at(ex, q, tag, 'ensures', isinstance(out.val, VNone), 'no-label=>None(no-verdict,so-no-gated-command)')
+    if n_paths == 0:
+        raise EngineError('min_version on an unlabelled reply: no path')
+    sess.absorb(ctx, replay=replay15('gates'))
     # EBB3 layer: parse_version then min_version
     ctx = sess.new_ctx()
     sm.install_common(ctx)
